@@ -1,6 +1,7 @@
 import Qhttp.Model.SlotHandler
 import Qhttp.Model.Http
 import Qhttp.Props.C02
+import Qhttp.Lemmas.C15Run
 /-
   C15 — the slot handler invokes the right slot once, and only with the full body.
 -/
@@ -136,4 +137,269 @@ example : (lookup regsEx []).map (·.idx) = some 2 := by decide
 example : lookup regsEx [97, 98, 99] = none := by decide
 example : lookup regsEx [98] = none := by decide
 
+/-! ## Theorems: runs of the socket model with the slot application
+
+  The proofs live in `Qhttp/Lemmas/C15*.lean`.  `C15L.SInv` is the invariant between two external
+  events, stated against the bytes delivered so far: head incomplete / head rejected / unknown
+  path answered 404 / unusable registration answered 500 / slot invoked (exactly one observation)
+  / invocation deferred (fewer than the declared number of body bytes buffered, nothing written,
+  no observation).  `C15L.run_inv` is the induction over the event list; the scenario shape is
+  `C15L.slotEvents`: `new (feed seg | turn)* [peerClose turn*]`. -/
+
+open C15L
+
+theorem slots_eq (l : List Obs) : slots l = slotsL l := rfl
+
+theorem statusOf_errWire_404 (env : Env) : statusOf (errWire env 404) = some 404 := by
+  unfold statusOf; rw [parse_errWire env 404 noCR_404]; exact status_404
+
+theorem statusOf_errWire_500 (env : Env) : statusOf (errWire env 500) = some 500 := by
+  unfold statusOf; rw [parse_errWire env 500 noCR_500]; exact status_500
+
+/-- how the driver computes `accepted` from the stream -/
+def acceptedOf (env : Env) (stream : Bytes) : Bool :=
+  match C01.headOf stream with | some h => (C01.expect env h).isSome | none => false
+
+theorem acceptedOf_none {env : Env} {stream : Bytes} (h : breakOn CRLF2 stream = none) :
+    acceptedOf env stream = false := by
+  simp [acceptedOf, C01.headOf, h]
+
+theorem acceptedOf_some {env : Env} {stream head rest : Bytes} (h : breakOn CRLF2 stream = some (head, rest)) :
+    acceptedOf env stream = (C01.expect env head).isSome := by
+  simp [acceptedOf, C01.headOf, h]
+
+theorem req_of {env : Env} {stream head rest : Bytes} {f : Snap}
+    (h : breakOn CRLF2 stream = some (head, rest)) (he : C01.expect env head = some f) :
+    C02.req env stream =
+      if f.total < 0 then none else some { headLen := head.length + 4, n := f.total.toNat, rest := rest } := by
+  simp [C02.req, h, he]
+
+/-- **C15, main theorem.** For every environment, registry and path, and every scenario
+    `new (feed seg | turn)* [peerClose turn*]` — every stream, accepted or not, with or without a
+    declared body, complete or truncated, under every segmentation — the executable predicate
+    holds on the model's run, with `accepted` and `r` computed from the stream as the driver does. -/
+theorem holds_run (env : Env) (regs : List Reg) (path : QStr) (evs : List Event)
+    (hshape : slotEvents evs = true) :
+    holds regs path (acceptedOf env (Scenario.fed evs)) (C02.req env (Scenario.fed evs))
+      (Scenario.run env ⟨app regs path, evs⟩).log = true := by
+  obtain ⟨c, h⟩ := run_inv env regs path evs hshape
+  show holds regs path _ _ (Sock.run env (app regs path) evs).log = true
+  generalize Sock.run env (app regs path) evs = s at h
+  unfold holds
+  cases h with
+  | hdr h hb =>
+    rw [acceptedOf_none hb]
+    simp [slots_eq, h.opn.slots]
+  | rej head rest hb he hq hs =>
+    rw [acceptedOf_some hb, he]
+    simp [slots_eq, hs]
+  | unknown head rest f hb he hl hq hs hw =>
+    rw [acceptedOf_some hb, he, hl]
+    simp [slots_eq, hs, hw, statusOf_errWire_404]
+  | failed head rest f m hb he hl hg hq hs hw =>
+    rw [acceptedOf_some hb, he, hl]
+    simp [slots_eq, hs, hw, statusOf_errWire_500, hg]
+  | invoked head rest f m a hb he hl hg hq hs ha hc =>
+    rw [acceptedOf_some hb, he, hl, req_of hb he]
+    simp only [slots_eq, hs, hg]
+    by_cases hneg : f.total < 0
+    · simp [hneg]
+    · simp only [hneg, if_false]
+      cases hra : m.readAll with
+      | false => simp
+      | true =>
+        have := ha hra
+        simp
+        omega
+  | deferred head rest f m hb he hl hra hN h =>
+    rw [acceptedOf_some hb, he, hl, req_of hb he]
+    have hs := h.opn.slots
+    have hsh := h.short
+    have hneg : ¬ f.total < 0 := by omega
+    simp only [slots_eq, hs, hra, hneg, if_false]
+    cases m.good <;> simp <;> omega
+
+
+/-- the same statement with `accepted` spelled exactly as in `Driver/Main.lean` -/
+theorem holds_run' (env : Env) (regs : List Reg) (path : QStr) (evs : List Event)
+    (hshape : slotEvents evs = true) :
+    holds regs path
+      (match C01.headOf (Scenario.fed evs) with | some h => (C01.expect env h).isSome | none => false)
+      (C02.req env (Scenario.fed evs)) (Scenario.run env ⟨app regs path, evs⟩).log = true :=
+  holds_run env regs path evs hshape
+
+/-! ## The property in plain terms (over the socket model) -/
+
+section plain
+variable (env : Env) (regs : List Reg) (path : QStr) (evs : List Event)
+
+/-- **once, and only with the full body.**  The head is accepted (`f` = what `C01.expect` shows
+    the application, `f.total` = the declared length or `-1`), `rest` is everything sent after
+    the blank line, and the path is registered (last) to a usable slot `m`.  Then
+    (a) the history contains at most one slot observation and it names `m`;
+    (b) if `m` asked for the whole body, the slot saw at least the declared number of readable bytes;
+    (c) if `m` did not ask for it: exactly one observation, directly after `headersParsed`;
+    (d) if `m` asked for it and the declared number of body bytes was delivered: exactly one. -/
+theorem once_full (hshape : slotEvents evs = true) (head rest : Bytes) (f : Snap) (m : Reg)
+    (hb : breakOn CRLF2 (Scenario.fed evs) = some (head, rest))
+    (he : C01.expect env head = some f) (hl : lookup regs path = some m) (hg : m.good = true) :
+    (slots (Scenario.run env ⟨app regs path, evs⟩).log = [] ∨
+      ∃ a, slots (Scenario.run env ⟨app regs path, evs⟩).log = [(m.idx, a)] ∧
+        (m.readAll = true → f.total ≤ (a : Int))) ∧
+    (m.readAll = false → ∃ a l1 l2, slots (Scenario.run env ⟨app regs path, evs⟩).log = [(m.idx, a)] ∧
+        (Scenario.run env ⟨app regs path, evs⟩).log = l1 ++ Obs.hp :: Obs.slot m.idx a :: l2) ∧
+    (m.readAll = true → f.total ≤ (rest.length : Int) →
+      ∃ a, slots (Scenario.run env ⟨app regs path, evs⟩).log = [(m.idx, a)]) := by
+  obtain ⟨c, h⟩ := run_inv env regs path evs hshape
+  rw [show Scenario.run env ⟨app regs path, evs⟩ = Sock.run env (app regs path) evs from rfl]
+  generalize Sock.run env (app regs path) evs = s at h
+  cases h with
+  | hdr h hb' => rw [hb] at hb'; exact absurd hb' (by simp)
+  | rej head' rest' hb' he' hq hs =>
+    rw [hb] at hb'; simp only [Option.some.injEq, Prod.mk.injEq] at hb'
+    rw [← hb'.1, he] at he'; exact absurd he' (by simp)
+  | unknown head' rest' f' hb' he' hl' hq hs hw => rw [hl] at hl'; exact absurd hl' (by simp)
+  | failed head' rest' f' m' hb' he' hl' hg' hq hs hw =>
+    rw [hl] at hl'; simp only [Option.some.injEq] at hl'
+    rw [← hl', hg] at hg'; exact absurd hg' (by simp)
+  | invoked head' rest' f' m' a hb' he' hl' hg' hq hs ha hc =>
+    rw [hb] at hb'; simp only [Option.some.injEq, Prod.mk.injEq] at hb'
+    obtain ⟨rfl, rfl⟩ := hb'
+    rw [he] at he'; simp only [Option.some.injEq] at he'; subst he'
+    rw [hl] at hl'; simp only [Option.some.injEq] at hl'; subst hl'
+    exact ⟨Or.inr ⟨a, hs, ha⟩, fun hr => by obtain ⟨l1, l2, e⟩ := hc hr; exact ⟨a, l1, l2, hs, e⟩,
+      fun _ _ => ⟨a, hs⟩⟩
+  | deferred head' rest' f' m' hb' he' hl' hra hN h =>
+    rw [hb] at hb'; simp only [Option.some.injEq, Prod.mk.injEq] at hb'
+    obtain ⟨rfl, rfl⟩ := hb'
+    rw [he] at he'; simp only [Option.some.injEq] at he'; subst he'
+    rw [hl] at hl'; simp only [Option.some.injEq] at hl'; subst hl'
+    refine ⟨Or.inl h.opn.slots, fun hr => by rw [hra] at hr; exact absurd hr (by simp), fun _ hle => ?_⟩
+    have := h.short
+    omega
+
+/-- an accepted request for a path nobody registered: no slot runs and the response is a 404 -/
+theorem unknown_404_run (hshape : slotEvents evs = true) (head rest : Bytes) (f : Snap)
+    (hb : breakOn CRLF2 (Scenario.fed evs) = some (head, rest))
+    (he : C01.expect env head = some f) (hl : lookup regs path = none) :
+    slots (Scenario.run env ⟨app regs path, evs⟩).log = [] ∧
+    statusOf (Obs.wire (Scenario.run env ⟨app regs path, evs⟩).log) = some 404 := by
+  obtain ⟨c, h⟩ := run_inv env regs path evs hshape
+  rw [show Scenario.run env ⟨app regs path, evs⟩ = Sock.run env (app regs path) evs from rfl]
+  generalize Sock.run env (app regs path) evs = s at h
+  cases h with
+  | hdr h hb' => rw [hb] at hb'; exact absurd hb' (by simp)
+  | rej head' rest' hb' he' hq hs =>
+    rw [hb] at hb'; simp only [Option.some.injEq, Prod.mk.injEq] at hb'
+    rw [← hb'.1, he] at he'; exact absurd he' (by simp)
+  | unknown head' rest' f' hb' he' hl' hq hs hw => exact ⟨hs, by rw [hw]; exact statusOf_errWire_404 env⟩
+  | failed head' rest' f' m' hb' he' hl' hg' hq hs hw => rw [hl] at hl'; exact absurd hl' (by simp)
+  | invoked head' rest' f' m' a hb' he' hl' hg' hq hs ha hc => rw [hl] at hl'; exact absurd hl' (by simp)
+  | deferred head' rest' f' m' hb' he' hl' hra hN h => rw [hl] at hl'; exact absurd hl' (by simp)
+
+/-- a registration whose slot is missing or has the wrong signature: no slot runs; the 500 is
+    sent when the slot would have been invoked (at once, or when the declared body is complete) -/
+theorem bad_500_run (hshape : slotEvents evs = true) (head rest : Bytes) (f : Snap) (m : Reg)
+    (hb : breakOn CRLF2 (Scenario.fed evs) = some (head, rest))
+    (he : C01.expect env head = some f) (hl : lookup regs path = some m) (hg : m.good = false) :
+    slots (Scenario.run env ⟨app regs path, evs⟩).log = [] ∧
+    (m.readAll = false ∨ f.total ≤ (rest.length : Int) →
+      statusOf (Obs.wire (Scenario.run env ⟨app regs path, evs⟩).log) = some 500) := by
+  obtain ⟨c, h⟩ := run_inv env regs path evs hshape
+  rw [show Scenario.run env ⟨app regs path, evs⟩ = Sock.run env (app regs path) evs from rfl]
+  generalize Sock.run env (app regs path) evs = s at h
+  cases h with
+  | hdr h hb' => rw [hb] at hb'; exact absurd hb' (by simp)
+  | rej head' rest' hb' he' hq hs =>
+    rw [hb] at hb'; simp only [Option.some.injEq, Prod.mk.injEq] at hb'
+    rw [← hb'.1, he] at he'; exact absurd he' (by simp)
+  | unknown head' rest' f' hb' he' hl' hq hs hw => rw [hl] at hl'; exact absurd hl' (by simp)
+  | failed head' rest' f' m' hb' he' hl' hg' hq hs hw =>
+    exact ⟨hs, fun _ => by rw [hw]; exact statusOf_errWire_500 env⟩
+  | invoked head' rest' f' m' a hb' he' hl' hg' hq hs ha hc =>
+    rw [hl] at hl'; simp only [Option.some.injEq] at hl'
+    rw [← hl', hg] at hg'; exact absurd hg' (by simp)
+  | deferred head' rest' f' m' hb' he' hl' hra hN h =>
+    rw [hb] at hb'; simp only [Option.some.injEq, Prod.mk.injEq] at hb'
+    obtain ⟨rfl, rfl⟩ := hb'
+    rw [he] at he'; simp only [Option.some.injEq] at he'; subst he'
+    rw [hl] at hl'; simp only [Option.some.injEq] at hl'; subst hl'
+    refine ⟨h.opn.slots, fun hor => ?_⟩
+    have := h.short
+    rcases hor with hr | hle
+    · rw [hra] at hr; exact absurd hr (by simp)
+    · omega
+
+/-- no blank line yet, or a head the library rejects: no slot ever runs -/
+theorem not_accepted_run (hshape : slotEvents evs = true)
+    (hna : ∀ head rest, breakOn CRLF2 (Scenario.fed evs) = some (head, rest) → C01.expect env head = none) :
+    slots (Scenario.run env ⟨app regs path, evs⟩).log = [] := by
+  obtain ⟨c, h⟩ := run_inv env regs path evs hshape
+  rw [show Scenario.run env ⟨app regs path, evs⟩ = Sock.run env (app regs path) evs from rfl]
+  generalize Sock.run env (app regs path) evs = s at h
+  cases h with
+  | hdr h hb' => exact h.opn.slots
+  | rej head' rest' hb' he' hq hs => exact hs
+  | unknown head' rest' f' hb' he' hl' hq hs hw => exact hs
+  | failed head' rest' f' m' hb' he' hl' hg' hq hs hw => exact hs
+  | invoked head' rest' f' m' a hb' he' hl' hg' hq hs ha hc =>
+    rw [hna _ _ hb'] at he'; exact absurd he' (by simp)
+  | deferred head' rest' f' m' hb' he' hl' hra hN h => exact h.opn.slots
+
+end plain
+/-! ### non-vacuity -/
+
+/-- `"a"` registered to a usable slot that wants the whole body / that does not / to a missing slot -/
+def regsAll : List Reg := [⟨[97], 0, true, true⟩]
+def regsNow : List Reg := [⟨[97], 0, true, false⟩]
+def regsBad : List Reg := [⟨[97], 0, false, true⟩]
+
+/-- `POST /a HTTP/1.1\r\nContent-Length: 3\r\n\r` | `\nab` | `cX` | turn: the blank line and the
+    3-byte body are both split between segments, one byte follows the body -/
+def evsSplit : List Event := [.new, .feed C02.seg1, .feed C02.seg2, .feed C02.seg3, .turn]
+/-- the head with its blank line | `abc` | the peer closes | turn -/
+def evsHeadFirst : List Event := [.new, .turn, .feed (C02.seg1 ++ [10]), .feed [97, 98, 99], .peerClose, .turn]
+/-- the body is never completed -/
+def evsShort : List Event := [.new, .feed (C02.seg1 ++ [10, 97]), .turn, .feed [98], .peerClose, .turn]
+
+def slotOrEv : Obs → Bool | .slot _ _ => true | .ev _ => true | .hp => true | .rcf => true | _ => false
+
+example : slotEvents evsSplit = true ∧ slotEvents evsHeadFirst = true ∧ slotEvents evsShort = true := by decide
+example : acceptedOf C02.envEx (Scenario.fed evsSplit) = true := by decide +kernel
+example : (C02.req C02.envEx (Scenario.fed evsSplit)).map (fun r => (r.n, r.rest)) = some (3, [97, 98, 99, 88]) := by
+  decide +kernel
+
+/-- whole-body slot, body split across two segments: invoked once, with 3 readable bytes, while
+    the third segment (event 3) is processed, at `readChannelFinished` -/
+example : (Scenario.run C02.envEx ⟨app regsAll [97], evsSplit⟩).log.filter slotOrEv =
+    [.ev 0, .ev 1, .ev 2, .hp, .ev 3, .rcf, .slot 0 3, .ev 4] := by decide +kernel
+/-- a slot that does not wait: invoked at routing time with what is readable then (0 bytes when
+    the segment ends with the blank line, 2 when two body bytes came with it) -/
+example : (Scenario.run C02.envEx ⟨app regsNow [97], evsHeadFirst⟩).log.filter slotOrEv =
+    [.ev 0, .ev 1, .ev 2, .hp, .slot 0 0, .ev 3, .rcf, .ev 4, .ev 5] := by decide +kernel
+example : (Scenario.run C02.envEx ⟨app regsNow [97], evsSplit⟩).log.filter slotOrEv =
+    [.ev 0, .ev 1, .ev 2, .hp, .slot 0 2, .ev 3, .rcf, .ev 4] := by decide +kernel
+/-- truncated body: the whole-body slot never runs -/
+example : slots (Scenario.run C02.envEx ⟨app regsAll [97], evsShort⟩).log = [] := by decide +kernel
+/-- the prefix name `"ab"` and the re-registration: path `"a"` runs slot 3, never 0 or 1 -/
+example : slots (Scenario.run C02.envEx ⟨app regsEx [97], evsSplit⟩).log = [(3, 2)] := by decide +kernel
+/-- unknown path: 404; missing slot: 500 once the body is complete -/
+example : statusOf (Obs.wire (Scenario.run C02.envEx ⟨app regsEx [98], evsSplit⟩).log) = some 404 := by
+  decide +kernel
+example : statusOf (Obs.wire (Scenario.run C02.envEx ⟨app regsBad [97], evsSplit⟩).log) = some 500 ∧
+    Obs.wire (Scenario.run C02.envEx ⟨app regsBad [97], evsShort⟩).log = [] := by decide +kernel
+
+/-- the predicate evaluated on concrete runs -/
+example : holds regsAll [97] (acceptedOf C02.envEx (Scenario.fed evsSplit)) (C02.req C02.envEx (Scenario.fed evsSplit))
+    (Scenario.run C02.envEx ⟨app regsAll [97], evsSplit⟩).log = true := by decide +kernel
+/-- ... and it is not trivially true: the same history does not satisfy it for a registry in which
+    another slot owns the path, nor does a history with a premature invocation -/
+example : holds regsEx [97] true (C02.req C02.envEx (Scenario.fed evsSplit))
+    (Scenario.run C02.envEx ⟨app regsAll [97], evsSplit⟩).log = false := by decide +kernel
+example : holds regsAll [97] true (C02.req C02.envEx (Scenario.fed evsSplit)) [.hp, .slot 0 2, .rcf] = false := by
+  decide +kernel
+example : holds regsAll [97] true (C02.req C02.envEx (Scenario.fed evsSplit)) [.hp, .rcf, .slot 0 3, .slot 0 3] = false := by
+  decide +kernel
+example : holds regsAll [97] true (C02.req C02.envEx (Scenario.fed evsSplit)) [.hp, .rcf] = false := by
+  decide +kernel
 end Qhttp.C15
